@@ -10,4 +10,5 @@ Definition roots := (Check.Mismatch.mismatch, Check.Mismatch.no_mismatch,
                      Check.FragmentProofs.cand_of_rows,
                      Check.DerivedFrag.dfrag, Check.DerivedFrag.dfrag_w, Check.DerivedFrag.code_sem_d,
                      Check.DerivedFrag.wf_rowsb_d, Check.DerivedFrag.dfrag_why,
+                     Check.DerivedFrag.efrag, Check.DerivedFrag.code_sem_x, Check.DerivedFrag.efrag_why,
                      Extract.RootsDesign.roots, Extract.RootsLayout.roots).
